@@ -36,6 +36,9 @@ CHECKS = {
  'C06': dict(level='fault_enumeration', technique='fault-injection property-based testing: generated duplicate/redelivery plans over generated runs (differential against the duplicate-free run, per-delivery row equality) plus generated executor cases against the real DefaultExecutor',
    text='Engine part: generated programs (direct, nested, with-items, asynchronous actions, optional pauses of actions/workflows) run under drawn schedules with a drawn plan that duplicates action results, start_task requests and the id-carrying start_workflow request (1-2 extra copies; delivered immediately, later or after the run went quiet). Every duplicate delivery must leave all execution rows unchanged (it may be rejected with any exception), no action execution may be dispatched twice, and the canonical final rows must equal the duplicate-free run. Executor part: DefaultExecutor.run_action with generated (redelivered, safe_rerun, action returning value/Result/error/raising/async, engine client ok / Mistral error / bus error): an unsafe redelivered action is not run and reported once as error, at most one result is reported per run.',
    design='3 C06', note=ASSUME + '; redelivery of the message bus is modelled by the plan (a copy is delivered after its original)'),
+ 'C07': dict(level='exploration', technique='property-based testing with a per-event monitor: generated with-items tasks (item count, zipped lists, concurrency literal/expression, action or sub-workflow items, per-item outcomes incl. cancel), generated completion orders, optional rerun with reset on/off',
+   text='For every generated with-items case the world is observed after each engine event: the number of started-but-unfinished child executions never exceeds the concurrency limit, the task never completes while an item is unfinished or missing, every index 0..n-1 gets exactly one execution (one accepted execution after a rerun), the final state is CANCELLED > ERROR > SUCCESS by item outcomes, an empty list succeeds without starting anything, the published task result lists the item results in index order whatever the completion order, and a rerun without reset executes exactly the failed indexes (with reset: all).',
+   design='3 C07', note=ASSUME + '; reruns are generated only for tasks without concurrency limit (known finding withitems-rerun-concurrency, replayed by a sub-check)'),
 }
 NA = []
 def main():
